@@ -424,6 +424,7 @@ func (s *State) enterLoop(l *Loop) {
 	for _, a := range mods.cells {
 		if cur, ok := s.cells[a]; ok {
 			nv := s.freshVal("loop:"+a.Comment, cur.T)
+			nv.Shared = cur.Shared // a variable that held a re-sliced slice before the loop may still hold one
 			s.cells[a] = nv
 		} else {
 			s.cells[a] = s.freshVal("loop:"+a.Comment, derefType(a.Type()))
